@@ -84,6 +84,13 @@ CLAIMED.update({
    note="BOOT / none / combination status values are generated and only the state list is asserted for them (the summaries are documented as ambiguous there). A device reporting the requested state together with the error bit is generated only through forced cycle values, never in transitions."),
 })
 
+CLAIMED.update({
+ "C08": dict(engine="simnet", category="exploration", design_ref="§5 C08",
+   technique="property-based testing with an end-to-end marking experiment on the simulated segment: generated coherent devices (SII + object dictionary + sync managers + PDOs), generated grouping and image capacities; oracle = device descriptions (window lengths, sync manager registers) and the simulator's memory before/after one cycle with distinct random patterns in every output window and input memory",
+   text="1..16 devices, 0..3 sync managers per direction of 1..3 PDOs of 1..4 entries of 1..64 bits, CoE or EEPROM PDO configuration, FMMU_EX, oversampling 2..8, adjacent or separate sync manager areas, lenient and strict devices, 1..3 groups with MAX_PDI in {8,32,128,1024}, SAFE-OP or OP. Checked: window lengths, windows pairwise disjoint and inside the image, inputs before outputs, sync manager registers as the device needs them, over-capacity => PdiTooLong, group images disjoint on the wire, and the marking experiment: every output pattern arrives in exactly that device's output sync manager memory and no other process RAM byte of any cycled device changes; every input window equals that device's input memory.",
+   note="Devices of a group whose transition failed are left half configured by the MainDevice; nothing is asserted about their memory (the statement speaks about groups brought to SAFE-OP / OP). Strict devices have exactly the FMMUs their SII declares; a group that fails because such a device runs out of FMMUs is accepted as an error outcome."),
+})
+
 NOT_YET = {}
 
 ALL = [f"C{i:02d}" for i in range(1,21)]
@@ -119,7 +126,7 @@ def main():
         {"name":"pdusim","path":"harness/vlib","serves_properties":[p for p in CLAIMED if CLAIMED[p]["engine"]=="pdusim"],"kind_free_text":"PDU-loop harness: real frame builder / TX / RX driven op by op under a virtual clock, reference frame encoder, slot snapshots through verif-hooks"},
         {"name":"sii","path":"harness/vlib/src/sii.rs","serves_properties":["C12","C13","C14"],"kind_free_text":"independent SII EEPROM encoder + in-memory EepromDataProvider (4/8 byte chunks, read budget), driven through the verif-hooks SiiQueries facade"},
         {"name":"wiregen","path":"harness/vlib/src/wiregen.rs","serves_properties":["C19"],"kind_free_text":"derive-program generator, Rust source emitter, request/response executor, bit-level reference packer"},
-        {"name":"simnet","path":"harness/vlib/src/simnet.rs","serves_properties":["C09","C10","C11"],"kind_free_text":"simulated EtherCAT segment: frame walk over ESC register/SII/SM/FMMU/AL/mailbox(CoE)/DC models, deterministic executor under the virtual clock, coherent device generator"},
+        {"name":"simnet","path":"harness/vlib/src/simnet.rs","serves_properties":["C08","C09","C10","C11"],"kind_free_text":"simulated EtherCAT segment: frame walk over ESC register/SII/SM/FMMU/AL/mailbox(CoE)/DC models, deterministic executor under the virtual clock, coherent device generator"},
         {"name":"a2","path":"harness/vlib/src/a2.rs","serves_properties":["C01","C02","C06"],"kind_free_text":"yield-level scheduler: parties as ucontext coroutines on one thread, baton handed over at every verif-hooks point, schedules generated (random/PCT) or enumerated (pre-emption bounded), ownership monitor"},
       ],
       "checks":checks,
